@@ -77,3 +77,11 @@ Definition cc_kind_ok (s : mst) (kv : str * nat) : bool :=
   | None => false
   end.
 Definition cc_kinds_ok (s : mst) : bool := forallb (cc_kind_ok s) (mdata s).
+
+(* a case of the harness — setup, then per goroutine (prologue, concurrent calls), cc_case_cfg — whose
+   calls are all of the class and whose directory-rename targets are pairwise different (the setup
+   starts from the empty filesystem, where no x name exists) *)
+Definition cc_case_ops (setup : list op) (progs : list (list op * list op)) : list op :=
+  setup ++ flat_map fst progs ++ flat_map snd progs.
+Definition cc_case_wtq (setup : list op) (progs : list (list op * list op)) : bool :=
+  forallb cc_wtq_op (cc_case_ops setup progs) && cc_nodupb (cc_xt_ops (cc_case_ops setup progs)).
